@@ -26,7 +26,7 @@ CONFIG = {
     "C13": {"jobs": [special("mouse", 1, 1)]},
     "C14": {"jobs": [lockstep("C14", 4000, 60000)]},
     "C15": {"jobs": [lockstep("C10", 1500, 20000), special("locks", 40, 400, race=True)]},
-    "C16": {"jobs": [special("streams", 1500, 30000)]},
+    "C16": {"jobs": [special("streams", 1500, 30000), lockstep("C16g", 1500, 30000)]},
     "C17": {"jobs": [lockstep("C17", 4000, 60000)]},
     "C18": {"jobs": [lockstep("C18", 4000, 60000), special("resizeidle", 600, 6000)]},
     "C19": {"jobs": [lockstep("C19", 3000, 60000), special("kbdexhaustive", 1, 2)]},
